@@ -22,7 +22,7 @@ tLstMacroExp ApplyLstMacroExpMod(tLstMacroExp Src, tLstMacroExpMod const* pMod) 
 Integer SaveIFs(void) { return 0; }
 
 unsigned char in_a1, in_a2, in_argc;
-static char t1[4], t2[4], nmA[2] = "A", nmB[2] = "B", dfA[2] = "p", dfB[2] = "q";
+static char t1[4], t2[4], o1[4], o2[4], nmA[2] = "A", nmB[2] = "B", dfA[2] = "p", dfB[2] = "q";
 static tStrComp argstore[3];
 static MacroRec mac; static StringRec nA, nB, dA, dB;
 static char e1[2] = "", att[2] = "", lab[2] = "", mname[2] = "M";
@@ -56,11 +56,11 @@ void harness(void)
   int vA, vB, ok; PInputTag t; StringRecPtr pa, pb;
   LOAD(in_a1); LOAD(in_a2); LOAD(in_argc);
   ASSUME(in_a1 <= 5 && in_a2 <= 5 && in_argc <= 2);
-  pick(t1, in_a1); pick(t2, in_a2);
+  pick(t1, in_a1); pick(t2, in_a2); pick(o1, in_a1); pick(o2, in_a2);      /* o1/o2: the arguments as written (ExpandMacro splits keyword arguments in place) */
   ArgStr = argstore; argstore[1].str.p_str = t1; argstore[2].str.p_str = t2; ArgCnt = in_argc;
   AttrPart.str.p_str = att; LabPart.str.p_str = lab;
   nA.Content = nmA; nA.Next = &nB; nB.Content = nmB; nB.Next = NULL; dA.Content = dfA; dA.Next = &dB; dB.Content = dfB; dB.Next = NULL;
-  mac.Name = mname; mac.ParamCount = 2; mac.ParamNames = &nA; mac.ParamDefVals = &dA; mac.FirstLine = NULL; mac.UseCounter = 0;
+  mac.Name = mname; mac.ParamCount = 2; mac.ParamNames = &nA; mac.ParamDefVals = &dA; mac.FirstLine = NULL; mac.UseCounter = 0; mac.UsesAllArgs = True; mac.UsesNumArgs = False;
   NestMax = 0; CaseSensitive = True; IfAsm = True; FirstInputTag = NULL; DoLst = eLstMacroExpAll; CurrLine = 1; CurrIncludeLevel = 0;
   diag_reset();
 
@@ -69,6 +69,14 @@ void harness(void)
   ok = bind(in_argc, in_a1, in_a2, &vA, &vB);
   t = FirstInputTag;
   CHECK(t != NULL && t->IsMacro, "a macro input tag is pushed");
+  if (t)
+  {
+    /* ALLARGS: the arguments of the call in their original form, comma separated */
+    char exp[10]; exp[0] = 0;
+    if (in_argc >= 1) strcat(exp, o1);
+    if (in_argc >= 2) { strcat(exp, ","); strcat(exp, o2); }
+    CHECK(!strcmp(t->AllArgs, exp), "ALLARGS holds the call's arguments as written (keyword arguments with their name=value text)");
+  }
   if (!ok) { CHECK(diag_errs > 0, "a positional argument after a keyword argument is an error"); WITNESS("binding error"); return; }
   if (dup_seen) { CHECK(diag_warns > 0 && diag_errs == 0, "a parameter given twice is a warning"); WITNESS("parameter given twice"); }
   else CHECK(diag_cnt == 0, "a well-formed call raises nothing");
